@@ -486,13 +486,17 @@ class C13(PropertyCheck):
 
     # ---------------------------------------------------------------------------------
     def regenerate(self, ctx):
-        decomp.regenerate(ctx.seed)                 # Gen/DecompTables.lean (shared with C03)
+        decomp.regenerate(ctx.seed)                 # Gen/DecompTables.lean, Gen/DecompVariant.lean (shared with C03)
+        ctx.log("source shape: resolve_gates reads a string basis as %s (fixes/C03-3 %s): the model of "
+                "_decompose_multi_qubit_gates resolves in %s" % (
+                    ("one gate name", "applied", "the list [CNOT]") if decomp.string_basis_exact()
+                    else ("a text searched for substrings", "not applied", "the string \"CNOT\"")))
         self.devs, (self.pre, self.guard), _ = devices.regenerate()
         ctx.log("source shape: transpile %s a circuit on more qubits than the processor; CircularSpinChain routes a "
                 "smaller circuit on the %s chain (fixes/C13-2 %s)" % (
                     "refuses" if self.guard else "does not refuse", self.devs["circularSpinChain"][3],
                     "applied" if self.guard else "not applied"))
-        return ["DecompTables.lean", "DeviceTables.lean"]
+        return ["DecompTables.lean", "DecompVariant.lean", "DeviceTables.lean"]
 
     # ---------------------------------------------------------------------------------
     def _tables_check(self, ctx, res):
